@@ -1,6 +1,6 @@
 """C15 — detectors record the co-located fields of their region.
 
-One generated scene carries 6..9 FieldDetectors whose boxes are drawn per axis from the contact classes
+One generated scene carries 5..8 FieldDetectors whose boxes are drawn per axis from the contact classes
 {low, interior, high, full}; random E, H, H_prev are written into the arrays and
 ``fdtdx.fdtd.update.update_detector_states`` is called once.  Every detector record is compared with an
 independent numpy co-location (pbt/oracles/detectors.py, DESIGN §9) of the whole simulated domain restricted to the
@@ -22,7 +22,7 @@ RULE = (
     "Hypothesis draws a simulated domain of 4..9 cells per axis (uniform, or rectilinear with widths from "
     "{0.6..1.6}*d), per axis either a periodic pair or two faces from {zero halo, PEC, PMC}, and with probability "
     "~0.45 one or two symmetry planes via config.symmetry (electric -1, rarely magnetic +1; the built model then has "
-    "2N cells and mirror-symmetric widths on that axis); 6..9 FieldDetectors with per-axis contact class drawn from "
+    "2N cells and mirror-symmetric widths on that axis); 5..8 FieldDetectors with per-axis contact class drawn from "
     "{low, interior, high, full} (detector 0 is forced strictly interior and exact, detector 1 exact and touching a "
     "face, the others free), exact_interpolation in {True, False}, random component subsets, some switched off at "
     "the probed step; dense gaussian E, H, H_prev from drawn seeds plus drawn impulses next to the faces. "
@@ -84,7 +84,7 @@ def case_strategy(draw, ctx):
     steps = 3
     t = draw(st.integers(0, steps - 1))
     dets = []
-    for i in range(draw(st.integers(6, 9))):
+    for i in range(draw(st.integers(5, 8))):
         if i == 0:
             cls = ["I", "I", "I"]
         elif i == 1:
@@ -153,6 +153,7 @@ def build_scene(case, lane):
 
 
 def body(ctx, case):
+    import jax
     import jax.numpy as jnp
     from fdtdx.fdtd.update import update_detector_states
 
@@ -164,9 +165,11 @@ def body(ctx, case):
     E, H, Hp = _fields(case, n, ctx.lane)
     arrays = scenes.set_fields(b.arrays, E, H)
     t = case["t"]
-    out = update_detector_states(jnp.asarray(t, dtype=jnp.int32), arrays, b.objects, b.config,
-                                 jnp.asarray(Hp, dtype=arrays.fields.H.dtype), False)
-    states = scenes.detector_arrays(out)
+    # one jit-compiled call (as in production, where the time loop is traced); eager dispatch would compile every
+    # primitive separately for the per-case shapes, which is 2-3x slower
+    fn = jax.jit(lambda ts, arr, hp: update_detector_states(ts, arr, b.objects, b.config, hp, False).detector_states)
+    out = fn(jnp.asarray(t, dtype=jnp.int32), arrays, jnp.asarray(Hp, dtype=arrays.fields.H.dtype))
+    states = {k: {kk: np.asarray(vv) for kk, vv in v.items()} for k, v in out.items()}
 
     w = od.stored_widths(b)
     rules = od.halo_rules(spec)
@@ -213,9 +216,9 @@ def body(ctx, case):
 
 
 SUBS = [
-    Sub(name="colocation", body=body, strategy=lambda ctx: case_strategy(ctx), quick=36, thorough=2400,
+    Sub(name="colocation", body=body, strategy=lambda ctx: case_strategy(ctx), quick=24, thorough=1600,
         lanes=("f64", "f32"), f32_fraction=0.25, quick_shards=2,
-        rule="random scene with 6..9 FieldDetectors over all face-contact classes; one update_detector_states call; "
+        rule="random scene with 5..8 FieldDetectors over all face-contact classes; one update_detector_states call; "
              "every record equals the numpy co-location oracle restricted to its box (interior path and fallback "
              "path alike), raw components without interpolation, untouched state when off"),
 ]
